@@ -16,6 +16,9 @@ LEVEL = 'fault_enumeration'
 
 SWEEP_VALUES = (0x00, 0x01, 0x7f, 0x80, 0xff)
 SWEEP_MAX_LEN = 256
+# second enumerated fault set: a maximal / minimal integer written over every offset (hostile length and count fields)
+FIELD_VALUES = {2: (0xffff, 0x0000), 3: (0xffffff, ), 4: (0xffffffff, 0x00000000, 0x7fffffff)}
+FIELD_MAX_LEN = 1024
 
 RULE = (
     'phase A enumerates a finite fault set completely: for each accepted corpus seed <= %d bytes, every truncation '
@@ -42,9 +45,25 @@ def sweep_list():
     return _SWEEP_LIST
 
 
+_FIELD_LIST = None
+
+
+def field_list():
+    global _FIELD_LIST  # pylint: disable=global-statement
+    if _FIELD_LIST is None:
+        out = []
+        for path in corpus.class_paths():
+            for raw in corpus.accepted(path):
+                if 1 < len(raw) <= FIELD_MAX_LEN and not wirefault.is_text(raw):
+                    out.append((path, raw.hex()))
+        _FIELD_LIST = out
+    return _FIELD_LIST
+
+
 def prepare(tier):  # pylint: disable=unused-argument
     workload.pools()
     sweep_list()
+    field_list()
     return {'phase': 'explore'}
 
 
@@ -63,6 +82,9 @@ def _generate(rng, index, tier, extra):  # pylint: disable=unused-argument
     if extra and extra.get('phase') == 'sweep':
         path, hexdata = sweep_list()[index]
         return {'kind': 'sweep', 'cls': path, 'hex': hexdata}
+    if extra and extra.get('phase') == 'fields':
+        path, hexdata = field_list()[index]
+        return {'kind': 'sweep', 'cls': path, 'hex': hexdata, 'fields': True}
     roll = rng.random()
     if roll < 0.72:
         paths = corpus.class_paths()
@@ -119,16 +141,26 @@ def _exec_sweep(doc, res):
     only = doc.get('only')   # minimised replay: [(mode, offset, value)]
     oracles.probe_c02(cls, raw, res, oracles.ENTRY_POINTS)
     cases = 0
-    if only is None:
+    if only is not None:
+        plan = [tuple(item) for item in only]
+    elif doc.get('fields'):
+        plan = [('field%d' % size, off, val) for size, values in sorted(FIELD_VALUES.items()) for val in values
+                for off in range(0, len(raw) - size + 1)]
+    else:
         plan = [('trunc', cut, 0) for cut in range(len(raw))]
         plan += [('set', off, val) for off in range(len(raw)) for val in SWEEP_VALUES if raw[off] != val]
-    else:
-        plan = [tuple(item) for item in only]
     for mode, off, val in plan:
         if mode == 'trunc':
             data = raw[:off]
             res.stats['fault.trunc'] += 1
             entries = oracles.ENTRY_POINTS
+        elif mode.startswith('field'):
+            size = int(mode[5:])
+            data = raw[:off] + val.to_bytes(size, 'big') + raw[off + size:]
+            if data == raw:
+                continue
+            res.stats['fault.lenfield'] += 1
+            entries = ('parse_immutable', )
         else:
             data = raw[:off] + bytes((val, )) + raw[off + 1:]
             res.stats['fault.set'] += 1
@@ -245,7 +277,12 @@ def shrink(doc, sig, budget):
             if violation['sig'] == sig and 'case' in violation:
                 mode, off, val = violation['case']
                 raw = bytes.fromhex(doc['hex'])
-                data = raw[:off] if mode == 'trunc' else raw[:off] + bytes((val, )) + raw[off + 1:]
+                if mode == 'trunc':
+                    data = raw[:off]
+                elif mode.startswith('field'):
+                    data = raw[:off] + val.to_bytes(int(mode[5:]), 'big') + raw[off + int(mode[5:]):]
+                else:
+                    data = raw[:off] + bytes((val, )) + raw[off + 1:]
                 cand = {'kind': 'dgram', 'cls': doc['cls'], 'hex': data.hex(), 'faults': [], 'entry': 'all'}
                 if core.has_sig(me, cand, sig):
                     doc = cand
@@ -283,9 +320,10 @@ def check(tier, seed):
     core.determinism_selftest(me, seed, tier, extra, count=60)
     n_sweep = len(sweep_list())
     sweep = core.run_batch(me, seed, tier, n_sweep, 400.0, {'phase': 'sweep'}, chunk=8)
+    fields = core.run_batch(me, seed, tier, len(field_list()), 400.0, {'phase': 'fields'}, chunk=4)
     n_runs, wall = BUDGET[tier]
     explore = core.run_batch(me, seed, tier, n_runs, wall, extra)
-    batch = core.merge_batches([sweep, explore])
+    batch = core.merge_batches([sweep, fields, explore])
     coverage = core.coverage_from_batch(
         batch, RULE, fault_kinds=wire.FAULT_KINDS,
         probes=('corrupted_input_accepted', 'second_layer_parse'),
@@ -303,6 +341,13 @@ def check(tier, seed):
                                'accepted corpus seed <= %d bytes' % (list(SWEEP_VALUES), SWEEP_MAX_LEN),
                 'seeds_swept': sweep.runs, 'seeds_total': n_sweep, 'faulted_inputs': sweep.stats.get('sweep.cases', 0),
                 'complete': sweep.runs == n_sweep and not sweep.truncated,
+            },
+            'enumerated_field_fault_set': {
+                'description': 'every offset of every accepted binary corpus seed <= %d bytes overwritten with %s' % (
+                    FIELD_MAX_LEN, {k: ['0x%x' % v for v in vs] for k, vs in FIELD_VALUES.items()}),
+                'seeds_swept': fields.runs, 'seeds_total': len(field_list()),
+                'faulted_inputs': fields.stats.get('sweep.cases', 0),
+                'complete': fields.runs == len(field_list()) and not fields.truncated,
             },
             'exploration_runs': explore.runs,
             'classes_in_corpus': len(corpus.class_paths()),
